@@ -5,6 +5,7 @@ package caldav
 
 import (
 	"fmt"
+	"strings"
 	"time"
 
 	"github.com/emersion/go-ical"
@@ -49,9 +50,15 @@ func ValidateCalendarObject(cal *ical.Calendar) (eventType string, uid string, e
 		// Calendar components in a calendar collection that have
 		// different UID property values MUST be stored in separate
 		// calendar object resources.
-		compUID, err := comp.Props.Text(ical.PropUID)
-		if err != nil {
-			return "", "", fmt.Errorf("error checking component UID: %v", err)
+		// A UID is a single text: a comma which isn't escaped belongs to it
+		// (Props.Text would only return what comes before that comma)
+		var compUID string
+		if prop := comp.Props.Get(ical.PropUID); prop != nil {
+			l, err := prop.TextList()
+			if err != nil {
+				return "", "", fmt.Errorf("error checking component UID: %v", err)
+			}
+			compUID = strings.Join(l, ",")
 		}
 		if uid == "" {
 			uid = compUID
